@@ -170,7 +170,7 @@ theorem item_last (p : Nat → Bool) (i : PItem) (hd : i.GoodD p) (ps : Params) 
         · simp [h2, h1] at hs; obtain ⟨rfl, rfl⟩ := hs
           rw [parseParams]
           · simp only [h2, if_false, h1, if_true]
-            simp [h2]
+            simp
           all_goals (intro r h; simp at h)
         · simp [h2, h1] at hs
     | some d =>
@@ -344,9 +344,9 @@ theorem toks_lambda (p : Nat → Bool) (po ar : List Param) (va : Option Ident) 
   have hlam : ∀ (c : Prop) [Decidable c], toks (if c then [PV.C11.kw .lambda, Out.sp] else [PV.C11.kw .lambda]) = [.kw .lambda] := by
     intro c _; split <;> rfl
   simp only [Nat.lt_irrefl, decide_false, Bool.false_eq_true, if_false, toks_append, hlam, hpo, har, hko,
-    itemsToks_append, List.singleton_append, List.cons_append, List.nil_append, List.append_assoc]
+    itemsToks_append, List.cons_append, List.nil_append, List.append_assoc]
   cases po <;> cases ar <;> cases va <;> cases ko <;> cases kw <;>
-    simp [itemsToks, PItem.toks, delim, op, kw]
+    simp [itemsToks, PItem.toks, delim, op]
 
 theorem runItems_append (a b : List PItem) (s : Params × Nat) :
     runItems (a ++ b) s = (runItems a s).bind (runItems b) := by
